@@ -22,6 +22,7 @@ CHECKS = {
             'Transport, HTTP server, ws-discovery, clock, uuid4 and Thread.start are harness stand-ins; one MDIB file '
             '(tests/mdib_tns.xml); depth and alphabet bounds as stated in the evidence.', '3/C01'),
     'C02': ('H', 'explicit-state exploration of provider transaction histories incl. all ordered pairs of related operations inside one transaction; version and referential invariants on consecutive canonical snapshots',
+            'Extensions: aborted transactions (pre-commit handler raises) between a delete and a re-create of a handle, pre-state with a removed handle whose versions were above zero. '
             'All 2-event histories over the 48-event alphabet, 60 multi-operation descriptor transactions (every ordered pair of '
             '9 related operations on parent / grandparent / child / siblings / descriptor+state through the classic and the entity '
             'interface, plus triples) from 5 pre-states and followed by every core event (thorough: depth 3, pairs of such '
@@ -57,6 +58,7 @@ CHECKS = {
             'Single subscriber; content comparison goes through the library reader (versions, handles, grouping through lxml only); '
             'ordering under concurrent writers is covered by the schedule-exploration part when present in the evidence.', '3/C04'),
     'C05': ('I', 'bounded-exhaustive enumeration of instances of every declared data-type / message / container class against the bundled XSD (independent libxml2 validator), canonical round-trip equality, write idempotence and object-identity rules',
+            'Extensions: exponent-form decimals in list attributes, the empty string for plain xsd:string members. '
             '225 classes found by reflection (participant model, message model, WS-Addressing / Eventing / Discovery / DPWS / MEX, SOAP fault, '
             'all state and descriptor containers; 174 validated as their named XSD type through a harness-generated wrapper schema or as global '
             'element, the rest inside their owners). Per class: the base instance (members that the library or the XSD requires), every single '
@@ -84,6 +86,7 @@ CHECKS = {
             'Consumer state is restored between delivery sequences from deep copies of the tables (self-checked); provider restart is '
             'modelled by assigning new ids; (c) models the deferred dispatcher by a FIFO between endpoint and a delivery thread.', '3/C06'),
     'C07': ('S', 'stateless preemption-bounded schedule exploration (CHESS-style iterative context bounding) of real request and writer threads under a cooperative baton scheduler; scheduling points at every lock acquire/release',
+            'Extensions: schedule tree split over the workers (run_partitioned), thorough caps per subtree group. '
             '18 scenarios of 1-2 Get request threads (GetMdib, GetMdDescription all/one handle, GetMdState all/some handles, '
             'GetContextStates all/one descriptor - real request bytes through the real provider dispatch chain and handlers) against '
             '1-2 writer threads (metric, location, patient, descriptor update/create/delete transactions) run as real Python threads of '
@@ -148,6 +151,7 @@ CHECKS = {
             'Attribute writes are always followed by update_object; updates that would create a duplicate unique key are outside the '
             'alphabet; the key functions of the index declarations are trusted, their maintenance is what is checked.', '3/C11'),
     'C12': ('H', 'exhaustive enumeration by reflection over all declared data-type/container classes of construct / parse(absent) / parse(present) / deepcopy / mk_copy / nested-write sequences',
+            'Extensions: the instances\' own storage (every mutable object in __dict__, e.g. the storage of observable properties) and the plain attribute node. '
             'For each of the ~250 classes with declared properties six independently obtained instances (constructor, parse of an element '
             'with every optional/defaulted member absent, parse of a fully written default, deepcopy, mk_copy, second parse) are '
             'compared by identity of every nested mutable object (depth 3) with each other and with the class-level default objects; '
@@ -157,6 +161,7 @@ CHECKS = {
             'Classes that cannot be constructed without unknown arguments (19 abstract/helper classes) are skipped and counted; '
             'reflection depth 3.', '3/C12'),
     'C13': ('I', 'bounded-exhaustive enumeration of all single structure-aware mutations, HTTP framing and header variants and short raw byte strings of every request type the library produces, each executed on a pristine provider+consumer world through the real DispatchingRequestHandler and message converters',
+            'Extensions: multi-state reports and description modification reports of indexed descriptors in the corpus, substitution of existing handles of another kind, lookup scan (index consistency) in the compared state. '
             'Corpus: all 34 request types captured from the loop-back wire (every service request incl. Subscribe/Renew/GetStatus/Unsubscribe, '
             'Probe, TransferGet, all 9 notification types, SubscriptionEnd). Per type: every element deleted / duplicated / renamed / moved to '
             'another or no namespace / swapped with its sibling / given an unexpected child; every attribute deleted / renamed / set to each of 15 '
@@ -173,6 +178,7 @@ CHECKS = {
             'blocking on an open idle connection is not modelled; the world is rebuilt after every state-changing accepted exchange (fork per '
             'case is 30-80 ms and serialises in this sandbox). Transaction-id counters are not part of the compared state.', '3/C13'),
     'C14': ('I+H', 'exhaustive enumeration of scope-URI pairs from a grammar against a reference matcher plus laws; explicit-state exploration of discovery datagram histories through the real reader/handlers against a reference model',
+            'Extensions: authority grammar (host case, port, userinfo, IPv6 literal, empty port) in all ordered pairs. '
             'All ordered pairs over a URI grammar (3 schemes x 3 authorities x 0-2 (thorough 3) path segments over {x, X, x%2Fy, %78, '
             'empty} x trailing slash x query; quick: every third URI as probe scope) under rfc3986, default and strcmp0 matching are '
             'compared with a 12-line reference matcher written from the property text, plus reflexivity and query-blindness; every '
@@ -185,6 +191,7 @@ CHECKS = {
             'ldap/uuid matching rules not covered; sockets replaced by a recording stub; the reference matcher mirrors the documented '
             'rule (raw split on "/", per-segment percent-decoding).', '3/C14'),
     'C15': ('I', 'exhaustive enumeration of all outcomes of both random draws (choice-point DFS on the real scheduling code)',
+            'Extensions: the real send loop on a virtual clock with a stop request before, between and after the scheduled transmissions: nothing is sent before its scheduled time or later than the loop raster. '
             'All 501 x 200 outcomes of the two random draws for the unicast and the multicast parameter set are executed '
             'on the real NetworkingThread.add_outbound_message/_repeated_enqueue_msg with clock and RNG owned by the '
             'harness; the envelope (count, initial delay, first-gap window, doubling, cap in seconds) is checked on every '
@@ -193,6 +200,7 @@ CHECKS = {
             'Sockets are stubbed (no datagram is sent); time.time() is a fixed virtual instant; the send loop itself '
             '(10 ms raster) is outside the property.', '3/C15'),
     'C16': ('I', 'exhaustive enumeration of the element-value product (present/absent x special characters) and of a scope-string grammar on the real SdcLocation / set_location / mk_scopes code',
+            'Extensions: 34 tricky texts (percent sequences, plus, reserved characters) in every element and in pairs, through round trip and the published-scope path. '
             'All |V|^6 locations over a value domain with reserved URL characters, encoded slashes, non-ASCII text and absent elements '
             '(4^6 quick, 8^6 thorough) are converted to a scope string and parsed back; for all locations over a sub-domain the scope '
             'actually published by a real provider (set_location -> LocationContextState.update_from_sdc_location -> mk_scopes) is '
@@ -202,6 +210,7 @@ CHECKS = {
             'Empty string == absent element; the all-absent location is not published (rejected by contract); values outside the '
             'domain V are not covered.', '3/C16'),
     'C17': ('I', 'exhaustive enumeration of small byte strings x chunk sizes x codings with http.client as independent framing oracle, single-byte corruption at every offset, and the product of Accept-Encoding shapes through the real handler / client code against an RFC 7231 reference',
+            'Extensions: sequences of 2 (thorough 3) requests with different Accept-Encoding headers on one keep-alive connection. '
             'All byte strings of length <= 4 (thorough 5) over {00, a, CR, LF} with every chunk size 1..len+2 and large bodies (511..65536 '
             'bytes, thorough up to 5 MiB) with boundary chunk sizes are framed by mk_chunks and decoded by _read_dechunk, '
             'read_request_body, read_response_body and, as independent oracle, Python\'s http.client.HTTPResponse; every registered '
@@ -212,6 +221,7 @@ CHECKS = {
             'and acceptable with q > 0 by an RFC 7231 reference function.',
             'In-memory sockets; http.client is trusted as framing oracle; bodies outside the enumerated set are not covered.', '3/C17'),
     'C18': ('I', 'bounded-exhaustive enumeration of the lexical / Python value spaces against exact-arithmetic oracles',
+            'Extensions: all 1681 whole-minute time zone offsets (parsed and built), XsdDateInformation built with int and float seconds 0..59. '
             'Every integer millisecond in dense windows (0..2e6, 1e6 around 1.7e12, 1e5 below 2^53/1000; thorough: 0..1e7 plus '
             'ten more windows) is converted xml->py->xml and py->xml->py (including both float neighbours); decimals: the full '
             'product sign x coefficient set (0..999/9999 and all 10^k, 10^k+-1, 18 nines) x exponent [-18,18]; durations: every '
